@@ -7,7 +7,11 @@ PROOF_AX = ("Coq 8.16.1 kernel incl. vm_compute (no native_compute); axioms per 
             "reports them, parsed on every run against the allow-list {Classical_Prop.classic, "
             "ClassicalDedekindReals.sig_forall_dec, ClassicalDedekindReals.sig_not_dec, "
             "FunctionalExtensionality.functional_extensionality_dep} (stdlib axioms Flocq's reals use); "
-            "data translator harness/dump + tools/gen_coq.py; hand-written Gallina model tied to /repo by the "
+            "data translator harness/dump + tools/gen_coq.py; source translator tools/rs2coq (Rust subset -> Gallina, "
+            "regenerates coq/gen/Src.v from /repo/src on every run, fails closed on constructs outside its subset; its "
+            "output for 33 functions of mask/extended_float/rounding/num/number/lemire/bellerophon/slow is PROVED equal to "
+            "the hand-written model: proofs/SrcEquiv*.v, theorems rs_*_eq pinned in props C01 C02 C11 C17 C18); the rest of the "
+            "hand-written Gallina model (parse.rs iterators, parse_mantissa macros, bigint.rs, the vectors) is tied to /repo by the "
             "correspondence harness (Rust runner vs extracted OCaml model, ExtrOcamlBasic only) - that tie is "
             "differential testing, not proof; rustc/LLVM/hardware IEEE arithmetic modelled, not verified.")
 
@@ -32,7 +36,9 @@ DEEP = DEEP_CLOSED if os.path.exists('/verif/coq/proofs/.deep_closed') else DEEP
 E2E = E2E % DEEP
 E2E_CAT = 'proof' if os.path.exists('/verif/coq/proofs/.deep_closed') else 'other'
 TIE = ("The model is tied to /repo on every run: constants/tables/on-demand powers are re-dumped from the compiled crate and the "
-       "proofs re-checked against them; the hand-written model is run against the real code (8 configurations x 2 build modes) on "
+       "proofs re-checked against them; the fast path, both extended-precision stages, the rounding primitive, the float helpers and "
+       "scientific_exponent are re-translated from the Rust source by tools/rs2coq and proved equal to the model (rs_*_eq, props/C01.v "
+       "C11.v C17.v C18.v); the whole hand-written model is run against the real code (8 configurations x 2 build modes) on "
        "directed generators (exact midpoints at depths 1..10^6, closest approaches for every q, algebraic ties, fallback witnesses, "
        "fast-path fence posts incl. wrapped products, every decade, deep binades, saturation, zero-limb big integers) and every "
        "result is also judged against an exact rational oracle.")
@@ -71,7 +77,7 @@ P = {
  'C11': ('proof', 'Coq: soundness theorems for both implementations of the stage (Eisel-Lemire: integers only, no axioms; Bellerophon: forward error analysis) for every (w, q, truncated) + refinement correspondence + number-theoretic search',
          "props/C11.v: compute_float_sound_all (every w in u64, every q, both builds: never a panic; a definite answer is rne_bits of w*10^q), lemire_sound (truncated: definite only "
          "if the answers at w and w+1 coincide), bellerophon_sound (the full statement incl. the truncated range), on the regenerated tables. Outside the theorems' hypotheses "
-         "are exactly the API-only corners listed in KNOWN_FINDINGS (F2a/b/c: truncated with w = 0, u64::MAX, or < 2^40 for Bellerophon), which parse_float cannot produce. "
+         "are exactly the API-only corners listed in KNOWN_FINDINGS (F2a/b/c: truncated with w = 0, u64::MAX, or < 2^40 for Bellerophon), which parse_float cannot produce. Source tie: rs_lemire_eq_std, rs_compute_float_eq_std, rs_compute_product_approx_eq, rs_full_multiplication_eq, rs_power_eq, rs_compute_error*_eq, rs_bellerophon_eq_std, rs_error_is_accurate_eq, rs_normalize_eq, rs_mul_eq, rs_get_small/large_eq: the Gallina translation of lemire.rs and bellerophon.rs, regenerated from /repo/src on every run, equals the model the soundness theorems are about. "
          "The stage is also called directly on closest approaches, algebraic ties, fallback witnesses, degenerate products for every q and judged against exact rationals.", PROOF_AX),
  'C12': ('proof', 'Coq: induction over limb lists - value of the result = the operation on naturals, None <-> result does not fit (37 theorems) + limb-for-limb correspondence on both back-ends',
          "Closed theorems (props/C12.v, no axioms) over the list-of-limbs model for every operation the property lists: small add/mul, large add, long/large mul, pow by 5/10 (135/27/table decomposition, on the regenerated tables, compact and non-compact), shifts, compare, normalise, bit length, hi64 + sticky flag, from_u64; for the fixed-capacity back-end failure is reported exactly when B64^62 <= exact result (normalised operands), and the state left behind by a failed small op is characterised. Hold for arbitrary build mode. The model is tied to the code by running both on carry-chain patterns at and one limb past capacity, both back-ends, release and checked builds, and against Python integers.", PROOF_AX),
@@ -90,9 +96,9 @@ P = {
          "code calls next() after a None are pinned down. The check feeds every input through 10 iterator shapes, stack-poisoning histories and 16 threads on the real code, incl. "
          "slow-path inputs with zero low limbs, and compares bit for bit.", PROOF_AX),
  'C17': ('proof', 'Coq: theorems generic in the format record under a boolean side condition discharged on the regenerated F32/F64 constants (25 theorems, all bit patterns) + agreement with the IEEE-754 decoder of Flocq + correspondence',
-         "Closed theorems (props/C17.v) for every bit pattern 0 <= x < 2^fbits (no enumeration: generic in the format, side condition fmt_ok computed on the constants dumped from the compiled crate): subnormal detection, exponent(), mantissa(), mantissa*2^exponent = magnitude (as the decoded SpecFloat value, and as Flocq B2R of Flocq's own binary_float_of_bits), to_bits/from_bits lossless, packing (biased exponent, fraction) incl. the overlapping hidden bit, b / b+h, order of patterns = order of values. Both build modes. Code tied by L1f correspondence (all 2^32 f32 patterns in the thorough tier).", PROOF_AX),
+         "Closed theorems (props/C17.v) for every bit pattern 0 <= x < 2^fbits (no enumeration: generic in the format, side condition fmt_ok computed on the constants dumped from the compiled crate): subnormal detection, exponent(), mantissa(), mantissa*2^exponent = magnitude (as the decoded SpecFloat value, and as Flocq B2R of Flocq's own binary_float_of_bits), to_bits/from_bits lossless, packing (biased exponent, fraction) incl. the overlapping hidden bit, b / b+h, order of patterns = order of values. Both build modes. Source tie: rs_is_denormal_eq, rs_exponent_eq, rs_mantissa_eq, rs_extended_to_float_eq, rs_b_eq, rs_bh_eq (translation of the Rust text regenerated every run = model). Also tied by L1f correspondence (all 2^32 f32 patterns in the thorough tier).", PROOF_AX),
  'C18': ('proof', 'Coq: closed form of round / round_nearest_tie_even / round_down over Z, then equality with Flocq round-to-nearest-even (and Zfloor) on FLT and with the oracle RN, for all significands and exponents in range (20 theorems) + correspondence on every exponent',
-         "Theorems (props/C18.v): for every significand in [2^63,2^64), every biased exponent in [-63,2^30] (covers [-63,2100]/[-63,320]), any build mode: round + round_nearest_tie_even never panics and its packed result equals RN f (significand*2^(exp-bias)) [C18_round_nearest_RN], equals Flocq round ZnearestE / SpecFloat.binary_normalize, incl. subnormals, promotion to the smallest normal, carry, overflow; truncating variant = Flocq Zfloor rounding below 2^emax and the infinity fields from 2^emax on (this deviation from 'largest float not above' is KNOWN_FINDINGS F3, proved as C18_round_down_correct); mask helpers for all widths 0..64. Format constants are the regenerated ones via rfmt_ok. Code tied by L1r correspondence on every exponent x 10-40 significand patterns.", PROOF_AX),
+         "Theorems (props/C18.v): for every significand in [2^63,2^64), every biased exponent in [-63,2^30] (covers [-63,2100]/[-63,320]), any build mode: round + round_nearest_tie_even never panics and its packed result equals RN f (significand*2^(exp-bias)) [C18_round_nearest_RN], equals Flocq round ZnearestE / SpecFloat.binary_normalize, incl. subnormals, promotion to the smallest normal, carry, overflow; truncating variant = Flocq Zfloor rounding below 2^emax and the infinity fields from 2^emax on (this deviation from 'largest float not above' is KNOWN_FINDINGS F3, proved as C18_round_down_correct); mask helpers for all widths 0..64. Format constants are the regenerated ones via rfmt_ok. Source tie: rs_round_eq, rs_round_nearest_tie_even_eq, rs_round_down_eq, rs_lower_n_mask_eq, rs_lower_n_halfway_eq, rs_nth_bit_eq (translation of rounding.rs/mask.rs regenerated every run = model). Also tied by L1r correspondence on every exponent x 10-40 significand patterns.", PROOF_AX),
  'C19': (E2E_CAT, 'Coq: lexer theorems (grammar decomposition, maximal munch, exponent saturation, trimming, special literals, totality) + front_end_value composing them with the end-to-end theorem + correspondence on the shipped front-end copies',
          "props/C19.v: front_end_value - for every byte string of at most 2^28 bytes the front end returns the pattern of +-RN(value of the literal as written) and exactly the "
          "unconsumed suffix (all 8 configurations, both formats, both build modes); lex_spec / lex_unique / lex_longest_prefix (the matched prefix is the longest word of the grammar), "
@@ -132,7 +138,7 @@ def main():
         'engines': [{
             'name': 'coq+correspondence', 'path': '/verif/coq, /verif/harness, /verif/ocaml, /verif/tools',
             'serves_properties': sorted(P),
-            'kind_free_text': 'Coq 8.16.1 + Flocq development (regenerated data, hand-written executable model, theorems per property) '
+            'kind_free_text': 'Coq 8.16.1 + Flocq development (regenerated data, Rust->Gallina source translation proved equal to the hand-written executable model for 33 functions, theorems per property) '
                               'tied to /repo by a Rust/OCaml correspondence harness with directed generators',
         }],
         'checks': checks,
